@@ -17,7 +17,7 @@
          from the token offsets = the formatted SpacesBefore), which is what makes
          a second Format a no-op on bytes.
    The separate functions tell the failure classes apart; fb_layout reports
-   the proved sufficient condition (FormatBytesProofs.relex_exact_main) so that
+   the proved sufficient condition (FormatBytesProofs.relex_exact_nohd) so that
    the harness can count how many cases the theorem covers. *)
 From Coq Require Import String Ascii.
 From HclV Require Import Base.Prelude Gen.TokenTypes Lex.Scanner Lex.HclLex Write.Format
@@ -56,10 +56,11 @@ Definition fb_bytes_mismatches (cs : list fb_case) : list Z := failing fb_bytes_
 Definition fb_token_mismatches (cs : list fb_case) : list Z := failing fb_tokens_ok cs.
 Definition fb_space_mismatches (cs : list fb_case) : list Z := failing fb_spaces_ok cs.
 
-(* coverage of the theorem: main-scanner tokens only, clean, local layout condition holds *)
+(* coverage of the theorem (FormatBytesProofs.relex_exact_nohd): clean, no heredoc,
+   local layout condition holds on the formatted list *)
 Definition fb_layout (c : fb_case) : bool :=
   let ts := fst c in
-  forallb (fun t => simple_ty (ty t)) ts && layout_okb (format ts).
+  forallb (fun t => nohd_ty (ty t)) ts && layout_okb (format ts).
 Definition fb_hazard_free (c : fb_case) : bool :=
   hazard_free (map (fun t => Scanner.mkTok (ty t) 0 0 (bytes t)) (fst c)).
 (* indices of cases where the proved sufficient condition holds *)
